@@ -676,4 +676,51 @@ theorem breakString_step (mw : Nat) (te : Bool) (le input : List Char) :
   · rw [h]; exact Step.eoi
   · rw [h]; exact breakAt_step te input index hi hcs
 
+/-! ## progress and termination of the loop of `rewrite_string` -/
+
+/-- `EndOfInput` carries the whole input; the length read by the other two is at least one grapheme and
+at most the input (`graphemes[cur_start..]` of the next turn is in range). -/
+def lenOk (input : List Char) : Snippet → Prop
+  | .endOfInput l => l = input
+  | .lineEnd _ n => 1 ≤ n ∧ n ≤ input.length
+  | .endWithLineFeed _ n => 1 ≤ n ∧ n ≤ input.length
+
+theorem Step.len_bounds {te : Bool} {input : List Char} {s : Snippet} (h : Step te input s) : lenOk input s := by
+  cases h with
+  | eoi => rfl
+  | feedTrim i _ hnl _ =>
+    have := (List.getElem?_eq_some_iff.mp hnl).1
+    exact ⟨by omega, by omega⟩
+  | feed n _ h1 hnl =>
+    have := (List.getElem?_eq_some_iff.mp hnl).1
+    exact ⟨h1, by omega⟩
+  | lineTrim m n _ _ h1 h2 _ _ _ => exact ⟨h1, h2⟩
+  | line n _ h1 _ _ hd' =>
+    obtain ⟨d, hd, _⟩ := hd'
+    have := (List.getElem?_eq_some_iff.mp hd).1
+    exact ⟨h1, by omega⟩
+
+/-- The loop of `rewrite_string` ends before the fuel does: every turn consumes a grapheme. -/
+theorem loop_isSome (k : LoopCfg) : ∀ (fuel : Nat) (rem acc : List Char) (curMax : Nat),
+    rem.length < fuel → (loop k fuel rem acc curMax).isSome = true
+  | 0, _, _, _, h => by omega
+  | fuel + 1, rem, acc, curMax, h => by
+    unfold loop
+    split
+    · rfl
+    · have hs := breakString_step curMax k.trimEnd k.lineEnd rem
+      have hb := hs.len_bounds
+      split
+      · rename_i line len heq
+        rw [heq] at hb
+        apply loop_isSome
+        simp only [List.length_drop]
+        simp only [lenOk] at hb
+        omega
+      · rename_i line len heq
+        rw [heq] at hb
+        simp only [lenOk] at hb
+        split <;> (apply loop_isSome; simp only [List.length_drop]; omega)
+      · rfl
+
 end RF.Lemmas.StringFmt
